@@ -44,7 +44,16 @@ def main(argv=None) -> int:
         repo = Repo()
         mod = load_rules(prop)
         report = Report(prop, args.tier)
-        mod.run(repo, report)
+        try:
+            mod.run(repo, report)
+        except AnalysisError as e:
+            # a rule already reported a violation and a later rule could not interpret the code: the violation stands
+            from sa.core import load_known
+            known = {(k["rule"], k["function"], k["construct"]) for k in load_known(prop)}
+            if not any(f.key() not in known for f in report.findings):
+                raise
+            report.notes.append(f"analysis incomplete after the reported violation(s): {e}")
+            print(f"NOTE: analysis incomplete after the reported violation(s): {e}")
         if args.replay:
             with open(args.replay) as fh:
                 want = json.load(fh)
